@@ -222,6 +222,15 @@ def run(chk):
     if proved and not any(py_bad.values()):
         return
     reported = False
+    gen_crash = [f for f in failed if f[0] == "generator-crash"]
+    if gen_crash:
+        # the plugin of the current tree does not produce a crate at all for this metamodel: reported first
+        chk.violation({"property": "C07", "kind": "generator-crash",
+                       "input": {"site": "rust-plugin-crash", "model": "generator/lsp.json of the tree under test"},
+                       "command": "cd %s && python -m generator --plugin rust --output-dir <scratch> --test-dir <scratch>" % V.REPO,
+                       "observed_impl": gen_crash[0][2], "expected": "a lib.rs is written",
+                       "how_to_replay": "./check C07 --replay <this file>"}, tag="generator")
+        reported = True
     for src in ("generated", "committed"):
         ce = (coq or {}).get(src, [])
         pi = py.get(src, [])
@@ -232,22 +241,16 @@ def run(chk):
                        "source": src, "source_path": GEN_COPY if src == "generated" else committed_path(),
                        "how_generated": "python -m generator --plugin rust --output-dir <scratch> (cwd = repository)" if src == "generated" else "committed file",
                        "offending_sites": total, "entries": entries,
+                       "input": {"site": "%s.%s" % (entries[0]["item"], entries[0]["field"]), "source": src} if entries else None,
+                       "what": ((entries[0]["coq_explain"] or [i["what"] for i in entries[0]["python_search"]] or [""])[0]) if entries else None,
                        "broken_obligations": [[a, b2, c[-600:]] for a, b2, c in failed],
                        "how_to_replay": "./check C07 --replay <this file>"}, tag=src)
         reported = True
     if not reported:
-        gen_crash = [f for f in failed if f[0] == "generator-crash"]
-        if gen_crash:
-            chk.violation({"property": "C07", "kind": "generator-crash",
-                           "input": "the committed metamodel generator/lsp.json",
-                           "command": "cd %s && python -m generator --plugin rust --output-dir <scratch> --test-dir <scratch>" % V.REPO,
-                           "observed_impl": gen_crash[0][2], "expected": "a lib.rs is written",
-                           "how_to_replay": "./check C07 --replay <this file>"}, tag="generator")
-        else:
-            chk.violation({"property": "C07", "kind": "obligation no longer checks",
-                           "broken": [{"what": a, "name": b2, "detail": c} for a, b2, c in failed],
-                           "searched": "rs_search on %s: no schema defect found on the Rust text" % sorted(texts),
-                           "how_to_replay": "./check C07 --replay <this file>"}, no_input=True)
+        chk.violation({"property": "C07", "kind": "obligation no longer checks",
+                       "broken": [{"what": a, "name": b2, "detail": c} for a, b2, c in failed],
+                       "searched": "rs_search on %s: no schema defect found on the Rust text" % sorted(texts),
+                       "how_to_replay": "./check C07 --replay <this file>"}, no_input=True)
 
 
 def replay(path):
